@@ -9,6 +9,11 @@
 //                                  rkind: val|exc|drop|dtor|final|none
 //   builds the world: the constructing thread runs its constructor up to the first scheduling point
 // other step labels: Action(thread[,thread])   threads: "r" (resolver), the names in H
+// rounds: ReArmShl(h, kind|"ready") = `f << fn` through a handle of the resolved state; ReArmAssign(h, kind) =
+//   `f = shared_future(fn)` by the sole holder (the new state is built in a spare slot, copy-assigned, the
+//   spare handle destroyed; the probe is re-bound to the new state as soon as its constructor is parked at
+//   the charge CAS).  Every round has its own resolver thread and its own value ids ("r","r2","r3" /
+//   "sv2","sv3"); the per-awaiter observations are reset when a round starts.
 // projection after each step:
 //   {"chain":"ready"|[nodes from top]|"-","cref":{h:0|1},"heap":n,"live":n,"nh":{h:n},"pend":{t:..},
 //    "resumes":{obs:n},"seen":{obs:{"tag","payload"}},"st":"none|alive|freed","tag","payload","use":n,"vd":n}
@@ -88,6 +93,10 @@ static const char *pname(int id) {
         case 2: return "fn";
         case 3: return "sv";
         case 4: return "coro";
+        case 12: return "r2";
+        case 13: return "r3";
+        case 22: return "sv2";
+        case 23: return "sv3";
         default: return "?";
     }
 }
@@ -210,6 +219,10 @@ struct World {
     std::coroutine_handle<> gate_h;
     bool r_spawned = false;
     Heap rheap;
+    long rheap_done = 0;     // balance of the resolver threads of the finished rounds
+    int round = 1;
+    HSlot *fresh = nullptr;  // slot in which a shared_future is being constructed for an assignment
+    bool rebind = false;     // the probe is to be re-bound to the state of that slot
     std::map<std::string, Rec> recs;
     std::map<std::uint64_t, std::string> node_of;
     // probe of the shared state
@@ -360,6 +373,39 @@ static void handle_body(World &w, TS &me) {
             Base &b = sf;
             me.cb->base = &b;
             if (!sf.operator co_await().subscribe(me.cb.get())) me.cb->resume();
+        } else if (cmd == "rearm_shl") {
+            // f << fn : fn returns a pending future (its promise goes to the resolver of the new round) or a ready one
+            me.curop = "charge";
+            SF &sf = *me.first();
+            World *pw = &w;
+            tl_ctor = true;
+            if (me.arg == "ready") {
+                int id = 20 + w.round;
+                sf << [id]() -> Base { return Base::set_value(id); };
+            } else {
+                sf << [pw]() -> Base {
+                    return Base([pw](cocls::promise<Counted> p) { pw->p.emplace(std::move(p)); });
+                };
+            }
+            tl_ctor = false;
+        } else if (cmd == "rearm_assign") {
+            // f = shared_future(fn) : the new object is built in a spare slot (visible to the controller while its
+            // constructor is parked), assigned with the implicit copy assignment, the spare handle destroyed
+            me.curop = "charge";
+            SF *dst = me.first();
+            HSlot *spare = nullptr;
+            for (auto &s : me.hs) if (!s.used) { spare = &s; break; }
+            World *pw = &w;
+            w.fresh = spare;
+            spare->used = true;
+            tl_ctor = true;
+            new (spare->buf) SF([pw](cocls::promise<Counted> p) { pw->p.emplace(std::move(p)); });
+            *dst = *static_cast<const SF *>(spare->get());
+            spare->get()->~SF();
+            memset(spare->buf, 0, sizeof(spare->buf));
+            spare->used = false;
+            w.fresh = nullptr;
+            tl_ctor = false;
         } else if (cmd == "nullpoll") {
             SF &sf = *me.hs[0].get();
             Rec &rec = w.recs.at(me.name + ".po");
@@ -382,11 +428,12 @@ static void resolver_body(World &w) {
     warm_thread();
     w.rheap.publish();
     const std::string &k = w.rkind;
+    int id = w.round == 1 ? 1 : 10 + w.round;
     if (k == "val") {
-        bool b = (*w.p)(1);
+        bool b = (*w.p)(id);
         (void) b;
     } else if (k == "exc") {
-        bool b = (*w.p)(std::make_exception_ptr(TestExc(1)));
+        bool b = (*w.p)(std::make_exception_ptr(TestExc(id)));
         (void) b;
     } else if (k == "drop") {
         bool b = (*w.p)(cocls::drop);
@@ -450,9 +497,19 @@ static bool is_idle(World &w, int t) {
 }
 
 static void acquire_probe(World &w) {
+    if (w.rebind && w.fresh && w.fresh->used && (w.fresh->get()->*SProbe::ptr_mp())) {
+        // assignment of a new shared_future in progress: from now on the projection describes the new state
+        for (auto it = w.node_of.begin(); it != w.node_of.end();) it = it->second == "tr" ? w.node_of.erase(it) : std::next(it);
+#if !C17_ASAN
+        w.wp.reset();
+#endif
+        w.have_probe = false;
+        w.rebind = false;
+    }
     if (w.have_probe) return;
     for (auto &kv : w.ts) {
         SF *sf = kv.second->first();
+        if (w.fresh && w.fresh->used && (w.fresh->get()->*SProbe::ptr_mp())) sf = w.fresh->get();
         if (!sf) continue;
         auto &sp = sf->*SProbe::ptr_mp();
         w.base = sp.get();
@@ -483,7 +540,7 @@ static const char *state_of(World &w) {
 // keeps the memory block of a destroyed state allocated (it is released by the controller), so the
 // block is discounted once the state has expired; the ASan build has no probe and counts exactly.
 static long heap_balance(World &w) {
-    long heap = w.rheap.value();
+    long heap = w.rheap.value() + w.rheap_done;
     for (auto &kv : w.ts) heap += kv.second->heap.value();
 #if !C17_ASAN
     if (w.have_probe && w.wp.expired()) heap -= 1;
@@ -591,6 +648,8 @@ static const char *command_of(const std::string &action) {
     if (action == "BeginCb") return "cb";
     if (action == "NullPoll") return "nullpoll";
     if (action == "LateInit" || action == "GetPromise") return "late";
+    if (action == "ReArmShl") return "rearm_shl";
+    if (action == "ReArmAssign") return "rearm_assign";
     return nullptr;
 }
 
@@ -657,6 +716,25 @@ static void run(const Scenario &sc, Reporter &rep) {
             TS &me = w.T(st.sarg(0));
             me.cmd = cmd;
             me.arg = st.sarg(1);
+            if (st.name == "ReArmShl" || st.name == "ReArmAssign") {
+                // a new round: its own resolver (kind = second argument), observations per round
+                auto rt = w.tid.find("r");
+                if (rt != w.tid.end() && !w.sched.done(rt->second)) {
+                    rep.diverge(k, "re-arm while the resolver of the previous round has not finished got=" + project(w).dump());
+                    bad = true;
+                    break;
+                }
+                w.tid.erase("r");
+                w.rheap_done += w.rheap.value();
+                w.rheap = Heap();
+                w.r_spawned = false;
+                w.p.reset();
+                w.gate_h = nullptr;
+                w.round++;
+                w.rkind = st.sarg(1) == "ready" ? "none" : st.sarg(1);
+                w.rebind = st.name == "ReArmAssign";
+                for (auto &kv : w.recs) kv.second = Rec();
+            }
         }
         w.sched.step(t);
         maybe_spawn_resolver(w);
